@@ -8,7 +8,7 @@ every configuration `cfg` (schema, rule lists, network), every descriptor, both 
 settings; hashes, the comparer transform and UTF-8 validity are universally quantified (`p : Prims`).
 
 Reading guide. `withNetwork cfg desc` is the descriptor the factory really processes (`{**descriptor, 'network':
-identifier}`). `classify cfg ty d key` is `hasattr(instance, key)` split by what the attribute is; `targetOf` is the
+identifier}`). `classify d key` is `copy_to`'s test of a key against the class (member / read-only property / refused); `targetOf` is the
 member a key writes to; `coerce cfg top hinted slot dv` is `lookup_value` (parsing rule chosen by the type hint, then
 the type converter) followed by `setattr`'s view of the result; `stored old cv` is the member after `setattr` /
 `list.extend`. `freshMembers` is the state of `Class()`.
@@ -19,9 +19,9 @@ clause `names`); whenever it is admissible in the sense of C01 the theorems `dec
 C01/C02 apply to it verbatim. The correspondence check compares `Codec.encode` of the model's value with
 `serialize()` of the created object on every generated descriptor.
 
-Leniencies of the code that the model reproduces and that are *findings*, not theorems to be proud of, are stated
-as `…_accepted` theorems at the end (a key that names a private attribute, a method or a class attribute passes the
-`hasattr` test of `copy_to`).
+`copy_to` accepts a descriptor key only if it names a public data member of the class (a property with a setter);
+private attributes, methods, class constants and dunder names are refused (`private_key_rejected`,
+`non_member_key_rejected`, `method_or_class_attribute_key_rejected`).
 -/
 import SymbolVerif.Proofs.DescriptorLemmas
 import SymbolVerif.Proofs.Codec.Sort
@@ -35,8 +35,7 @@ open SymbolVerif SymbolVerif.Bytes SymbolVerif.Codec SymbolVerif.Sdk SymbolVerif
     If `create` succeeds, the result is an object of the type the descriptor names, with exactly the value-carrying
     members of that type, and
     * (`described`) a member that exactly one entry `(key, dv)` of the processed descriptor writes to holds
-      `stored default cv`, where `cv` is the coerced value of `dv` (rule selected by the member's type hint when the
-      key is the member's name; no rule when the key is its private attribute);
+      `stored default cv`, where `cv` is the coerced value of `dv` (rule selected by the member's type hint);
     * (`others`) a member no entry writes to holds what it holds in a fresh instance;
     both for every member except the ones `create` computes afterwards (`id`, nem `message`), and, when autosort is on,
     for integer / byte-string / absent values (arrays: `autosort_canonical`; nested objects are sorted by `Codec.sort`). -/
@@ -48,15 +47,15 @@ theorem create_holds_described {p : Prims} {cfg : Config} (hS : schemaOk cfg.sch
       freshMembers cfg.schema ty = .ok fresh ∧
       v = .struct ty vs ∧
       vs.map (·.1) = (carrying d).map (·.name) ∧
-      (∀ pre key dv post f hinted,
+      (∀ pre key dv post f,
           withNetwork cfg desc = pre ++ (key, dv) :: post → key ≠ "type" →
-          classify cfg ty d key = .member f hinted →
-          (∀ kv ∈ pre ++ post, targetOf cfg ty d true kv.1 ≠ some f.name) →
+          classify d key = .member f →
+          (∀ kv ∈ pre ++ post, targetOf d true kv.1 ≠ some f.name) →
           computedAfter cfg f.name = false →
-          ∃ cv, coerce cfg true hinted (slotOf f.kind) dv = .ok cv ∧
+          ∃ cv, coerce cfg true true (slotOf f.kind) dv = .ok cv ∧
             (autosort = false ∨ isAtom (stored (Val.get fresh f.name) cv) = true →
               Val.get vs f.name = some (stored (Val.get fresh f.name) cv))) ∧
-      (∀ n w, (∀ kv ∈ withNetwork cfg desc, targetOf cfg ty d true kv.1 ≠ some n) →
+      (∀ n w, (∀ kv ∈ withNetwork cfg desc, targetOf d true kv.1 ≠ some n) →
           computedAfter cfg n = false → Val.get fresh n = some w →
           (autosort = false ∨ isAtom w = true) → Val.get vs n = some w) := by
   obtain ⟨ty, d, fresh, st, hr, hf, hc, hfin⟩ := create_ok h
@@ -65,7 +64,7 @@ theorem create_holds_described {p : Prims} {cfg : Config} (hS : schemaOk cfg.sch
   have hfresh := freshMembers_names hfind hf
   have hst : st.vs.map (·.1) = fresh.map (·.1) := copyEntries_names _ hc
   refine ⟨ty, d, fresh, vs, hr, hf, hv, by rw [hnames, hst, hfresh], ?_, ?_⟩
-  · intro pre key dv post f hinted hsplit hkey hcl hothers hca
+  · intro pre key dv post f hsplit hkey hcl hothers hca
     have hk : (true && key == "type") = false := by simpa using hkey
     have hmem : f.name ∈ fresh.map (·.1) := by
       rw [hfresh]; exact List.mem_map_of_mem (classify_member_mem hcl)
@@ -78,105 +77,47 @@ theorem create_holds_described {p : Prims} {cfg : Config} (hS : schemaOk cfg.sch
     have := copyEntries_untouched _ hc n hnone
     exact hget n w hca (by rw [this]; exact hw) hor
 
-theorem underscore_ne_network (s : String) : "_" ++ s ≠ "network" := by
-  intro h
-  have := congrArg String.toList h
-  simp [String.toList_append] at this
-
-/-- `create_holds_described` for the descriptors users write: a dict (keys pairwise distinct) that does not use the
-    private attribute of the member in question. Every entry `key: dv` whose key is the name of a member (`type_`,
-    `property_` for `type`, `property`) puts `stored default (coerced dv)` into that member. -/
+/-- `create_holds_described` for the descriptors users write, dicts (keys pairwise distinct): every entry `key: dv`
+    whose key is the name of a member (`type_`, `property_` for `type`, `property`) puts `stored default (coerced dv)`
+    into that member — no other key can write to it. -/
 theorem create_holds_described_dict {p : Prims} {cfg : Config} (hS : schemaOk cfg.schema = true)
     {autosort embedded : Bool} {desc : List (String × DVal)} {v : Val}
     (h : create p cfg autosort embedded desc = .ok v) (hdict : (desc.map (·.1)).Nodup) :
     ∃ ty d fresh vs,
       resolve cfg embedded (withNetwork cfg desc) = .ok (ty, d) ∧
       freshMembers cfg.schema ty = .ok fresh ∧ v = .struct ty vs ∧
-      ∀ key dv f, (key, dv) ∈ withNetwork cfg desc → key ≠ "type" → classify cfg ty d key = .member f true →
-        (∀ kv ∈ desc, kv.1 ≠ "_" ++ fixName f.name) → computedAfter cfg f.name = false →
+      ∀ key dv f, (key, dv) ∈ withNetwork cfg desc → key ≠ "type" → classify d key = .member f →
+        computedAfter cfg f.name = false →
         ∃ cv, coerce cfg true true (slotOf f.kind) dv = .ok cv ∧
           (autosort = false ∨ isAtom (stored (Val.get fresh f.name) cv) = true →
             Val.get vs f.name = some (stored (Val.get fresh f.name) cv)) := by
   obtain ⟨ty, d, fresh, vs, hr, hf, hv, -, hdesc, -⟩ := create_holds_described hS h
   refine ⟨ty, d, fresh, vs, hr, hf, hv, ?_⟩
-  intro key dv f hmem hkey hcl hpriv hca
+  intro key dv f hmem hkey hcl hca
   obtain ⟨pre, post, hsplit⟩ := List.append_of_mem hmem
   have hkeys := nodup_split_keys (withNetwork_nodup (cfg := cfg) hdict) hsplit
-  have hkeyeq : key = fixName f.name := by
-    rcases classify_member_key hcl with ⟨-, hk⟩ | ⟨hf', -⟩
-    · exact hk
-    · cases hf'
-  apply hdesc pre key dv post f true hsplit hkey hcl _ hca
+  apply hdesc pre key dv post f hsplit hkey hcl _ hca
   intro kv hkv ht
-  have hin : kv ∈ withNetwork cfg desc := by
-    rw [hsplit]
-    rcases List.mem_append.1 hkv with h1 | h1
-    · exact List.mem_append_left _ h1
-    · exact List.mem_append_right _ (List.mem_cons_of_mem _ h1)
-  rcases targetOf_keys ht with hk | hk
-  · exact hkeys kv hkv (hk.trans hkeyeq.symm)
-  · have hmem' : kv.1 ∈ (withNetwork cfg desc).map (·.1) := List.mem_map_of_mem hin
-    rw [withNetwork_keys] at hmem'
-    have hmem'' : kv.1 ∈ desc.map (·.1) := by
-      split at hmem'
-      · exact hmem'
-      · rcases List.mem_append.1 hmem' with h1 | h1
-        · exact h1
-        · simp only [List.mem_singleton] at h1
-          rw [hk] at h1; exact absurd h1 (underscore_ne_network _)
-    rw [List.mem_map] at hmem''
-    obtain ⟨kv', hkv', he⟩ := hmem''
-    exact hpriv kv' hkv' (he.trans hk)
+  exact hkeys kv hkv ((targetOf_keys ht).trans (classify_member_key hcl).1.symm)
 
 /-! ### the forced network, the type constants -/
 
 /-- **The network is the facade's.** Whatever a descriptor (a dict: keys pairwise distinct) says under `network`, the
-    member `network` of the created transaction holds the facade's identifier, which is a member of `NetworkType` —
-    unless the descriptor also writes to the private attribute `_network` (see `private_key_accepted`). The
-    hypothesis on the resolved type holds for every shipped transaction type (`create_network_forced_of_configOk` with
-    `symbol_config_ok` / `nem_config_ok`). -/
+    member `network` of the created transaction holds the facade's identifier, which is a member of `NetworkType`.
+    The hypothesis on the resolved type holds for every shipped transaction type
+    (`create_network_forced_of_configOk` with `symbol_config_ok` / `nem_config_ok`). -/
 theorem create_network_forced {p : Prims} {cfg : Config} (hS : schemaOk cfg.schema = true)
     {autosort embedded : Bool} {desc : List (String × DVal)} {v : Val}
     (h : create p cfg autosort embedded desc = .ok v)
-    (hdict : (desc.map (·.1)).Nodup) (hpriv : ∀ kv ∈ desc, kv.1 ≠ "_network")
+    (hdict : (desc.map (·.1)).Nodup)
     (hnet : ∀ ty d, resolve cfg embedded (withNetwork cfg desc) = .ok (ty, d) →
-      ∃ f ety w sg ms, classify cfg ty d "network" = .member f true ∧ f.name = "network" ∧
-        slotOf f.kind = .ty ety ∧ cfg.schema.find ety = some (.enum w sg false ms) ∧
-        ∃ w0, Val.get (match freshMembers cfg.schema ty with | .ok fresh => fresh | .error _ => []) "network" = some (.int w0))
+      ∃ f ety w sg ms, classify d "network" = .member f ∧ f.name = "network" ∧
+        slotOf f.kind = .ty ety ∧ cfg.schema.find ety = some (.enum w sg false ms))
     (hauto : computedAfter cfg "network" = false) :
     ∃ ty vs, v = .struct ty vs ∧ Val.get vs "network" = some (.int cfg.networkId) := by
-  obtain ⟨ty, d, fresh, vs, hr, hf, hv, -, hdesc, -⟩ := create_holds_described hS h
-  obtain ⟨f, ety, w, sg, ms, hcl, hfn, hslot, hfind, w0, hw0⟩ := hnet ty d hr
-  simp only [hf] at hw0
-  obtain ⟨pre, post, hsplit⟩ := List.append_of_mem (withNetwork_has (cfg := cfg) (desc := desc))
-  have hkeys := nodup_split_keys (withNetwork_nodup (cfg := cfg) hdict) hsplit
-  have hothers : ∀ kv ∈ pre ++ post, targetOf cfg ty d true kv.1 ≠ some f.name := by
-    intro kv hkv ht
-    rw [hfn] at ht
-    have hin : kv ∈ withNetwork cfg desc := by
-      rw [hsplit]
-      rcases List.mem_append.1 hkv with h1 | h1
-      · exact List.mem_append_left _ h1
-      · exact List.mem_append_right _ (List.mem_cons_of_mem _ h1)
-    rcases targetOf_keys ht with hk | hk
-    · exact hkeys kv hkv (by rw [hk]; decide)
-    · -- the key is `_network`: it comes from the descriptor itself
-      have hk' : kv.1 = "_network" := by rw [hk]; decide
-      have : (withNetwork cfg desc).map (·.1) = (if desc.any (·.1 == "network") then desc.map (·.1) else desc.map (·.1) ++ ["network"]) :=
-        withNetwork_keys
-      have hmem : kv.1 ∈ (withNetwork cfg desc).map (·.1) := List.mem_map_of_mem hin
-      rw [this] at hmem
-      have hmem' : kv.1 ∈ desc.map (·.1) := by
-        split at hmem
-        · exact hmem
-        · rcases List.mem_append.1 hmem with h1 | h1
-          · exact h1
-          · simp only [List.mem_singleton] at h1
-            rw [hk'] at h1; exact absurd h1 (by decide)
-      rw [List.mem_map] at hmem'
-      obtain ⟨kv', hkv', he⟩ := hmem'
-      exact hpriv kv' hkv' (he.trans hk')
-  obtain ⟨cv, hco, hval⟩ := hdesc pre "network" (.int cfg.networkId) post f true hsplit (by decide) hcl hothers (by rw [hfn]; exact hauto)
+  obtain ⟨ty, d, fresh, vs, hr, hf, hv, hdesc⟩ := create_holds_described_dict hS h hdict
+  obtain ⟨f, ety, w, sg, ms, hcl, hfn, hslot, hfind⟩ := hnet ty d hr
+  obtain ⟨cv, hco, hval⟩ := hdesc "network" (.int cfg.networkId) f withNetwork_has (by decide) hcl (by rw [hfn]; exact hauto)
   rw [hslot] at hco
   obtain ⟨rfl, -⟩ := coerce_enum_int_ok hfind hco
   refine ⟨ty, vs, hv, ?_⟩
@@ -193,7 +134,7 @@ theorem create_type_version_constants {p : Prims} {cfg : Config} (hS : schemaOk 
     ∃ ty d vs, resolve cfg embedded (withNetwork cfg desc) = .ok (ty, d) ∧ v = .struct ty vs ∧
       ∀ n c, (n, Val.int c) ∈ initializers cfg.schema d → ((initializers cfg.schema d).map (·.1)).Nodup →
         n ∈ (carrying d).map (·.name) → computedAfter cfg n = false →
-        (∀ kv ∈ withNetwork cfg desc, targetOf cfg ty d true kv.1 ≠ some n) →
+        (∀ kv ∈ withNetwork cfg desc, targetOf d true kv.1 ≠ some n) →
         Val.get vs n = some (.int c) := by
   obtain ⟨ty, d, fresh, vs, hr, hf, hv, -, -, hothers⟩ := create_holds_described hS h
   refine ⟨ty, d, vs, hr, hv, ?_⟩
@@ -205,13 +146,40 @@ theorem create_type_version_constants {p : Prims} {cfg : Config} (hS : schemaOk 
 /-! ### rejection -/
 
 /-- **Unknown members are rejected.** A descriptor with a key (other than `type`, and `network`, which the factory
-    overwrites) that names no attribute of the class the descriptor names is refused. -/
+    overwrites) that is not the name of a property of the class the descriptor names is refused. This covers misspelt
+    names and, since the `hasattr` leniency was repaired, every attribute that is not a data member. -/
 theorem unknown_key_rejected {p : Prims} {cfg : Config} {autosort embedded : Bool} {desc : List (String × DVal)}
     {key : String} {dv : DVal} (hmem : (key, dv) ∈ desc) (hk : key ≠ "type") (hn : key ≠ "network")
-    (hu : ∀ ty d, resolve cfg embedded (withNetwork cfg desc) = .ok (ty, d) → key ∉ attrNames cfg ty d) :
+    (hu : ∀ ty d, resolve cfg embedded (withNetwork cfg desc) = .ok (ty, d) → key ∉ propertyNames d) :
     ∃ e, create p cfg autosort embedded desc = .error e :=
   create_error_of_bad_entry key dv (mem_withNetwork hmem hn)
-    (fun ty d hr => stepEntry_unknown hk (classify_unknown_of_not_attr (hu ty d hr)))
+    (fun _ d hr => stepEntry_unknown hk (classify_unknown_of_not_property (hu _ d hr)))
+
+/-- … in particular **a key that starts with an underscore**: the private attribute of a member (`_fee`, `_network`),
+    a reserved field (`_entity_body_reserved_1`), a protected method (`_serialize`), a dunder name (`__doc__`) —
+    whatever the class and whatever the value. -/
+theorem private_key_rejected {p : Prims} {cfg : Config} {autosort embedded : Bool} {desc : List (String × DVal)}
+    {key : String} {dv : DVal} (hmem : (key, dv) ∈ desc) (hu : startsWithUnderscore key = true) :
+    ∃ e, create p cfg autosort embedded desc = .error e := by
+  have hk : key ≠ "type" := by intro e; rw [e] at hu; exact absurd hu (by decide)
+  have hn : key ≠ "network" := by intro e; rw [e] at hu; exact absurd hu (by decide)
+  exact create_error_of_bad_entry key dv (mem_withNetwork hmem hn)
+    (fun _ _ _ => stepEntry_unknown hk (classify_unknown_of_underscore hu))
+
+/-- a property without setter (`size`) is refused as well (`setattr` raises) -/
+theorem read_only_key_rejected {p : Prims} {cfg : Config} {autosort embedded : Bool} {desc : List (String × DVal)}
+    {dv : DVal} (hmem : ("size", dv) ∈ desc)
+    (hsz : ∀ ty d, resolve cfg embedded (withNetwork cfg desc) = .ok (ty, d) → ∀ f ∈ carrying d, fixName f.name ≠ "size") :
+    ∃ e, create p cfg autosort embedded desc = .error e := by
+  apply create_error_of_bad_entry "size" dv (mem_withNetwork hmem (by decide))
+  intro ty d hr st
+  have hfind : (carrying d).find? (fun f => fixName f.name == "size") = none := by
+    rw [List.find?_eq_none]
+    intro f hf
+    simpa using hsz ty d hr f hf
+  refine ⟨.readOnlyKey "size", ?_⟩
+  unfold stepEntry classify
+  simp [hfind, startsWithUnderscore, endsWith]
 
 /-- **Computed members are rejected**: any key ending in `_computed`. -/
 theorem computed_key_rejected {p : Prims} {cfg : Config} {autosort embedded : Bool} {desc : List (String × DVal)}
@@ -247,7 +215,7 @@ theorem missing_type_rejected {p : Prims} {cfg : Config} {autosort embedded : Bo
 theorem unknown_enum_name_rejected {p : Prims} {cfg : Config} {autosort embedded : Bool} {desc : List (String × DVal)}
     {key s : String} (hmem : (key, .str s) ∈ desc) (hk : key ≠ "type") (hn : key ≠ "network")
     (henum : ∀ ty d, resolve cfg embedded (withNetwork cfg desc) = .ok (ty, d) →
-      ∃ f ety w sg ms, classify cfg ty d key = .member f true ∧ slotOf f.kind = .ty ety ∧
+      ∃ f ety w sg ms, classify d key = .member f ∧ slotOf f.kind = .ty ety ∧
         cfg.schema.find ety = some (.enum w sg false ms) ∧ ∀ m ∈ ms, m.1.toLower ≠ s) :
     ∃ e, create p cfg autosort embedded desc = .error e := by
   apply create_error_of_bad_entry key (.str s) (mem_withNetwork hmem hn)
@@ -262,7 +230,7 @@ theorem unknown_enum_name_rejected {p : Prims} {cfg : Config} {autosort embedded
 theorem unknown_flag_rejected {p : Prims} {cfg : Config} {autosort embedded : Bool} {desc : List (String × DVal)}
     {key s : String} (hmem : (key, .str s) ∈ desc) (hk : key ≠ "type") (hn : key ≠ "network")
     (hflags : ∀ ty d, resolve cfg embedded (withNetwork cfg desc) = .ok (ty, d) →
-      ∃ f ety w sg ms, classify cfg ty d key = .member f true ∧ slotOf f.kind = .ty ety ∧
+      ∃ f ety w sg ms, classify d key = .member f ∧ slotOf f.kind = .ty ety ∧
         cfg.schema.find ety = some (.enum w sg true ms) ∧
         ∃ part ∈ splitBlank s, part ≠ "none" ∧ ∀ m ∈ ms, m.1.toLower ≠ part) :
     ∃ e, create p cfg autosort embedded desc = .error e := by
@@ -279,7 +247,7 @@ theorem unknown_flag_rejected {p : Prims} {cfg : Config} {autosort embedded : Bo
 theorem out_of_range_rejected {p : Prims} {cfg : Config} {autosort embedded : Bool} {desc : List (String × DVal)}
     {key : String} {i : Int} (hmem : (key, .int i) ∈ desc) (hk : key ≠ "type") (hn : key ≠ "network")
     (hpod : ∀ ty d, resolve cfg embedded (withNetwork cfg desc) = .ok (ty, d) →
-      ∃ f pty w sg, classify cfg ty d key = .member f true ∧ slotOf f.kind = .ty pty ∧
+      ∃ f pty w sg, classify d key = .member f ∧ slotOf f.kind = .ty pty ∧
         cfg.schema.find pty = some (.int w sg) ∧ inRange w sg i = false) :
     ∃ e, create p cfg autosort embedded desc = .error e := by
   apply create_error_of_bad_entry key (.int i) (mem_withNetwork hmem hn)
@@ -294,7 +262,7 @@ theorem out_of_range_rejected {p : Prims} {cfg : Config} {autosort embedded : Bo
 theorem enum_int_rejected {p : Prims} {cfg : Config} {autosort embedded : Bool} {desc : List (String × DVal)}
     {key : String} {i : Int} (hmem : (key, .int i) ∈ desc) (hk : key ≠ "type") (hn : key ≠ "network")
     (henum : ∀ ty d, resolve cfg embedded (withNetwork cfg desc) = .ok (ty, d) →
-      ∃ f ety w sg ms, classify cfg ty d key = .member f true ∧ slotOf f.kind = .ty ety ∧
+      ∃ f ety w sg ms, classify d key = .member f ∧ slotOf f.kind = .ty ety ∧
         cfg.schema.find ety = some (.enum w sg false ms) ∧ enumAdmits false ms i = false) :
     ∃ e, create p cfg autosort embedded desc = .error e := by
   apply create_error_of_bad_entry key (.int i) (mem_withNetwork hmem hn)
@@ -317,7 +285,7 @@ theorem plain_int_out_of_range_deferred {cfg : Config} {top : Bool} {w : Nat} {s
 theorem wrong_length_bytes_rejected {p : Prims} {cfg : Config} {autosort embedded : Bool} {desc : List (String × DVal)}
     {key : String} {b : Bytes} (hmem : (key, .bytes b) ∈ desc) (hk : key ≠ "type") (hn : key ≠ "network")
     (hsdk : ∀ ty d, resolve cfg embedded (withNetwork cfg desc) = .ok (ty, d) →
-      ∃ f bty n k, classify cfg ty d key = .member f true ∧ slotOf f.kind = .ty bty ∧
+      ∃ f bty n k, classify d key = .member f ∧ slotOf f.kind = .ty bty ∧
         cfg.schema.find bty = some (.bytes n) ∧ cfg.sdkMapping.find? (·.1 == bty) = some (bty, k) ∧
         sdkSize cfg k ≠ b.length) :
     ∃ e, create p cfg autosort embedded desc = .error e := by
@@ -461,54 +429,18 @@ theorem namespaceIdFor_child {p : Prims} {S : Schema} {vs : List (String × Val)
   simp [hrt, hc, hp, hname, hutf, hnn]
   cases namespaceId p.sha3_256 name parent <;> rfl
 
-/-! ### leniencies of `copy_to` (findings) -/
-
-/-- `hasattr` is also true for methods, class attributes and reserved / dunder attributes: such a key is accepted
-    (unless its value is a list), and the member state does not change — the descriptor entry is silently ignored, or
-    it breaks the object (`serialize`) without `create` saying so. (Known finding; the property asks for rejection.) -/
-theorem non_member_attribute_key_accepted {cfg : Config} {ty : String} {d : StructDef} {key : String} {dv : DVal} {st : St}
-    (hk : key ≠ "type") (hc : endsWith key "_computed" = false) (hs : classify cfg ty d key = .shadow)
-    (hl : ∀ l, dv ≠ .list l) :
-    ∃ st', stepEntry cfg ty d true key dv st = .ok st' ∧ st'.vs = st.vs := by
-  unfold stepEntry
-  have : (true && key == "type") = false := by simpa using hk
-  simp only [this, Bool.false_eq_true, if_false, hc, hs]
-  cases dv with
-  | list l => exact absurd rfl (hl l)
-  | int i => exact ⟨_, rfl, rfl⟩
-  | str s => exact ⟨_, rfl, rfl⟩
-  | bytes b => exact ⟨_, rfl, rfl⟩
-  | dict kvs => exact ⟨_, rfl, rfl⟩
-  | sdk c b => exact ⟨_, rfl, rfl⟩
-  | codec c v => exact ⟨_, rfl, rfl⟩
-  | none => exact ⟨_, rfl, rfl⟩
-
-/-- the private attribute of a member is accepted as a key too, and then no parsing rule is applied: an object of the
-    member's class is stored as it is (an undocumented alias), anything else is stored raw. (Known finding.) -/
-theorem private_key_accepted {cfg : Config} {ty : String} {d : StructDef} {key : String} {f : Field} {st : St}
-    {cls : String} {v : Val} (hk : key ≠ "type") (hc : endsWith key "_computed" = false)
-    (hp : classify cfg ty d key = .member f false) (hslot : slotOf f.kind = .ty cls) (hnl : ∀ l, v ≠ .arr l) :
-    stepEntry cfg ty d true key (.codec cls v) st = .ok { st with vs := assign st.vs f.name v } := by
-  unfold stepEntry
-  have : (true && key == "type") = false := by simpa using hk
-  simp only [this, Bool.false_eq_true, if_false, hc, hp, hslot]
-  have hco : coerce cfg true false (.ty cls) (.codec cls v) = .ok v := by
-    simp [coerce, coerceAtom, convertPlace, convert, place, fits]
-  rw [hco]
-  cases v with
-  | arr l => exact absurd rfl (hnl l)
-  | int i => rfl
-  | bytes b => rfl
-  | struct t fs => rfl
-  | none => rfl
-
 /-! ### the shipped configurations (regenerated from the sources on every run) -/
+
+/-- names every generated class has as a method or class constant: no property of a transaction type is called so -/
+def generatedNonMembers : List String :=
+  ["serialize", "deserialize", "to_json", "sort", "comparer", "TYPE_HINTS", "TRANSACTION_VERSION", "TRANSACTION_TYPE"]
 
 /-- what the theorems above assume about a transaction type -/
 def typeOk (cfg : Config) (c : String × StructDef) : Bool :=
-  (match classify cfg c.1 c.2 "network" with
-   | .member f true => f.name == "network" && slotOf f.kind == .ty "NetworkType"
+  (match classify c.2 "network" with
+   | .member f => f.name == "network" && slotOf f.kind == .ty "NetworkType"
    | _ => false) &&
+  (generatedNonMembers.all fun k => !(propertyNames c.2).contains k) &&
   decide ((initializers cfg.schema c.2).map (·.1) = ["type", "version"]) &&
   ((initializers cfg.schema c.2).all fun iv =>
     ((carrying c.2).map (·.name)).contains iv.1 && (match iv.2 with | .int _ => true | _ => false)) &&
@@ -547,54 +479,53 @@ theorem configOk_type {cfg : Config} (hcfg : configOk cfg = true) {embedded : Bo
     exact List.all_eq_true.1 hemb _ hc
 
 /-- `create_network_forced` for a configuration that passes `configOk` (in particular the shipped ones): for every
-    dict descriptor without the key `_network`, whatever it says under `network`, the created transaction carries the
-    facade's network identifier. -/
+    dict descriptor, whatever it says under `network`, the created transaction carries the facade's network identifier. -/
 theorem create_network_forced_of_configOk {p : Prims} {cfg : Config} (hcfg : configOk cfg = true)
     {autosort embedded : Bool} {desc : List (String × DVal)} {v : Val}
     (h : create p cfg autosort embedded desc = .ok v)
-    (hdict : (desc.map (·.1)).Nodup) (hpriv : ∀ kv ∈ desc, kv.1 ≠ "_network") :
+    (hdict : (desc.map (·.1)).Nodup) :
     ∃ ty vs, v = .struct ty vs ∧ Val.get vs "network" = some (.int cfg.networkId) := by
   have hcfg' := hcfg
   simp only [configOk, Bool.and_eq_true, Bool.not_eq_true'] at hcfg'
   obtain ⟨⟨⟨⟨⟨⟨⟨⟨⟨⟨⟨⟨hS, henum⟩, -⟩, -⟩, -⟩, -⟩, -⟩, -⟩, -⟩, -⟩, hca⟩, -⟩, -⟩ := hcfg'
-  apply create_network_forced hS h hdict hpriv _ hca
+  apply create_network_forced hS h hdict _ hca
   intro ty d hr
   have ht := configOk_type hcfg hr
   simp only [typeOk, Bool.and_eq_true] at ht
-  obtain ⟨⟨⟨hcl, -⟩, -⟩, hfresh⟩ := ht
-  cases hc : classify cfg ty d "network" with
-  | member f hinted =>
-    cases hinted with
-    | true =>
-      simp only [hc, Bool.and_eq_true, beq_iff_eq] at hcl
-      cases hfind : cfg.schema.find "NetworkType" with
-      | none => simp [hfind] at henum
-      | some td =>
-        cases td with
-        | enum w sg bw ms =>
-          cases bw with
-          | false =>
-            cases hfm : freshMembers cfg.schema ty with
-            | error e => simp [hfm] at hfresh
-            | ok fresh =>
-              simp only [hfm] at hfresh
-              cases hg : Val.get fresh "network" with
-              | none => simp [hg] at hfresh
-              | some w0 =>
-                cases w0 with
-                | int i => exact ⟨f, "NetworkType", w, sg, ms, rfl, hcl.1, hcl.2, hfind, i, by simp⟩
-                | bytes b => simp [hg] at hfresh
-                | struct t fs => simp [hg] at hfresh
-                | arr l => simp [hg] at hfresh
-                | none => simp [hg] at hfresh
-          | true => simp [hfind] at henum
-        | int w sg => simp [hfind] at henum
-        | bytes n => simp [hfind] at henum
-        | struct sd => simp [hfind] at henum
-    | false => simp [hc] at hcl
+  obtain ⟨⟨⟨⟨hcl, -⟩, -⟩, -⟩, -⟩ := ht
+  cases hc : classify d "network" with
+  | member f =>
+    simp only [hc, Bool.and_eq_true, beq_iff_eq] at hcl
+    cases hfind : cfg.schema.find "NetworkType" with
+    | none => simp [hfind] at henum
+    | some td =>
+      cases td with
+      | enum w sg bw ms =>
+        cases bw with
+        | false => exact ⟨f, "NetworkType", w, sg, ms, rfl, hcl.1, hcl.2, hfind⟩
+        | true => simp [hfind] at henum
+      | int w sg => simp [hfind] at henum
+      | bytes n => simp [hfind] at henum
+      | struct sd => simp [hfind] at henum
   | unknown => simp [hc] at hcl
   | readOnly => simp [hc] at hcl
-  | shadow => simp [hc] at hcl
+
+/-- **A method name or a class constant is no member**: on a configuration that passes `configOk` (the shipped ones),
+    a descriptor with one of the keys `serialize`, `deserialize`, `to_json`, `sort`, `comparer`, `TYPE_HINTS`,
+    `TRANSACTION_VERSION`, `TRANSACTION_TYPE` is rejected, for every transaction type and both entry points. -/
+theorem method_or_class_attribute_key_rejected {p : Prims} {cfg : Config} (hcfg : configOk cfg = true)
+    {autosort embedded : Bool} {desc : List (String × DVal)} {key : String} {dv : DVal}
+    (hmem : (key, dv) ∈ desc) (hkey : key ∈ generatedNonMembers) :
+    ∃ e, create p cfg autosort embedded desc = .error e := by
+  have hk : key ≠ "type" := by intro e; rw [e] at hkey; exact absurd hkey (by decide)
+  have hn : key ≠ "network" := by intro e; rw [e] at hkey; exact absurd hkey (by decide)
+  apply unknown_key_rejected hmem hk hn
+  intro ty d hr
+  have ht := configOk_type hcfg hr
+  simp only [typeOk, Bool.and_eq_true] at ht
+  obtain ⟨⟨⟨⟨-, hnm⟩, -⟩, -⟩, -⟩ := ht
+  have := List.all_eq_true.1 hnm key hkey
+  simpa using this
 
 open SymbolVerif.Generated.C10 in
 /-- the symbol configuration read from the sources on this run satisfies every side condition, on both networks -/
@@ -680,16 +611,18 @@ def symbolRejected : List Bool :=
 
 example : symbolRejected.all id = true := by decide +kernel
 
-/-- the findings: non-member attributes pass `hasattr`; a plain integer member is not range checked by `create` -/
-def symbolLenient : List Bool :=
+/-- keys that are not public data members are refused (the repaired `hasattr` leniency); a plain integer member is not
+    range checked by `create` (the integer codec refuses it at `serialize()`) -/
+def symbolNonMembers : List Bool :=
   let cfg := symbolConfig 152
   let t := ("type", DVal.str "transfer_transaction_v1")
-  [ !rejected (create examplePrims cfg true false [t, ("TYPE_HINTS", .dict [])]),
-    !rejected (create examplePrims cfg true false [t, ("serialize", .int 1)]),
-    intMember (create examplePrims cfg true false [t, ("_fee", .codec "Amount" (.int 7))]) "fee" 7,
+  [ rejected (create examplePrims cfg true false [t, ("TYPE_HINTS", .dict [])]),
+    rejected (create examplePrims cfg true false [t, ("serialize", .int 1)]),
+    rejected (create examplePrims cfg true false [t, ("_fee", .codec "Amount" (.int 7))]),
+    rejected (create examplePrims cfg true false [t, ("size", .int 7)]),
     intMember (create examplePrims cfg true false [t, ("version", .int 300)]) "version" 300 ]
 
-example : symbolLenient.all id = true := by decide +kernel
+example : symbolNonMembers.all id = true := by decide +kernel
 
 /-- nem testnet: nested dict, SDK address object converted to its text form, transfer message hack, no embedded entry
     point, misspelt key inside a nested dict -/
